@@ -144,7 +144,7 @@ def check(case, r, tier):
             for n in ns:
                 unrolled = "\n".join([body] * n)
                 for reg in REG:
-                    if reg != "first" and lazy_weight(idx) * n > 10:
+                    if reg != "first" and lazy_weight(idx) * n > 64:   # (was 10 before the repair of the exponential re-evaluation, section 13 #52)
                         r.extra["lazy_regime_cases_skipped_resource_guard"] += 1
                         continue
                     for odd in ((False, True) if (d == 1 or (thorough and d == 2)) else ((n + len(idx) + idx[-1]) % 2 == 1,)):
